@@ -5,6 +5,7 @@ import (
 	"math"
 	"reflect"
 	"strings"
+	"sync/atomic"
 
 	"github.com/dop251/goja"
 
@@ -19,8 +20,10 @@ type env struct {
 	fixAll, expAll, precAll, radAll               goja.Callable
 	child                                         *child
 	isChild                                       bool
-	hangs                                         int    // requests the child gave up on so far
-	model                                         nm.Num // model of the x being worked on
+	hangs                                         int           // requests the child gave up on so far
+	busySince                                     atomic.Int64  // start of the conversion in progress (unix ns), 0 = idle
+	busyX                                         atomic.Uint64 // its x
+	model                                         nm.Num        // model of the x being worked on
 	ver                                           nm.Verifier
 	generate                                      bool // also compare shortest digits with the generative model (D1, D4)
 }
@@ -28,8 +31,10 @@ type env struct {
 // reset replaces the runtime after a Go panic escaped from it.
 func (e *env) reset() {
 	n := newEnv()
-	n.child, n.isChild, n.hangs, n.generate = e.child, e.isChild, e.hangs, e.generate
-	*e = *n
+	e.vm = n.vm
+	e.str, e.cat, e.fix, e.exp, e.expu, e.prec, e.rad, e.rad0, e.rt = n.str, n.cat, n.fix, n.exp, n.expu, n.prec, n.rad, n.rad0, n.rt
+	e.num, e.plus, e.pf, e.pi, e.pi1, e.js = n.num, n.plus, n.pf, n.pi, n.pi1, n.js
+	e.fixAll, e.expAll, e.precAll, e.radAll = n.fixAll, n.expAll, n.precAll, n.radAll
 }
 
 const envSrc = `({
